@@ -253,6 +253,20 @@ func (pool *c04Pool) runAll(cases <-chan *c04Case, emit func(c *c04Case, res c04
 				res, alive := p.run(c, pool.timeout)
 				if !alive {
 					p = nil
+					// a worker that vanished without a crash report (killed from outside, machine
+					// under memory pressure) says nothing about cog: run the case once more in a
+					// fresh worker before believing it
+					if res.Outcome == "crash" && (strings.HasPrefix(res.Raw, "worker ") || res.Frame == "?" && !strings.Contains(res.Raw, "fatal error")) {
+						if p2, err := c04Spawn(pool.work); err == nil {
+							res2, alive2 := p2.run(c, pool.timeout*2)
+							if alive2 {
+								p = p2
+							} else {
+								p2 = nil
+							}
+							res = res2
+						}
+					}
 					c04AttachIR(c, &res)
 				}
 				mu.Lock()
